@@ -5,14 +5,15 @@ package ops
 
 // WriteFile replaces one object or fails; a failed write may or may not have replaced the object, and never
 // removes one. The ghost log records the order of object writes relative to the key manifest.
-//@ func WriteFile trusted
+//@ func WriteFile
+//@   requires s != nil
 //@   assigns nothing
-//@   modifies diskHas
+//@   modifies diskHas, curObj, wroteFull
 //@   ghostset wroteAfterManifest = wroteAfterManifest || manifestWrites > 0
 //@   ghostset manifestWrites = manifestWrites + ite(name == "keyManifest.textproto", 1, 0)
 //@   ghostset objWrites = objWrites + 1
-//@   ensures err == nil ==> diskHas[name]
-//@   ensures forall(o, string, o != name ==> diskHas[o] == old(diskHas)[o]) && (old(diskHas)[name] ==> diskHas[name])
+//@   ensures[C10,C11] err == nil ==> diskHas[name]
+//@   ensures[C10,C11] forall(o, string, o != name ==> diskHas[o] == old(diskHas)[o]) && (old(diskHas)[name] ==> diskHas[name])
 
 //@ func ReadFile trusted
 //@   assigns nothing
